@@ -1552,6 +1552,27 @@ structure MethodFacts where
 			}
 			return "def timerGlobals : List (String × String) := [" + strings.Join(ents, ", ") + "]\n"
 		}},
+		{"resolveLiterals", func() string {
+			// the string literals of the candidate-building functions of require/resolve.go, in source order
+			f := mustFile("require/resolve.go")
+			var ents []string
+			for _, fn := range []string{"loadAsFile", "loadIndex", "loadAsDirectory", "loadNodeModules"} {
+				fd := findFunc(f, fn)
+				if fd == nil {
+					fail("function %s not found", fn)
+				}
+				var lits []string
+				ast.Inspect(fd.Body, func(n ast.Node) bool {
+					if bl, ok := n.(*ast.BasicLit); ok && bl.Kind == token.STRING {
+						v, _ := strconv.Unquote(bl.Value)
+						lits = append(lits, v)
+					}
+					return true
+				})
+				ents = append(ents, "("+leanStr(fn)+", "+leanStrList(lits)+")")
+			}
+			return "def resolveLiterals : List (String × List String) := [" + strings.Join(ents, ", ") + "]\n"
+		}},
 		{"formatDirectives", func() string {
 			// case clauses of the switch in (*Util).format: rune literals
 			fd := mustFunc("util/module.go", "format")
